@@ -75,7 +75,12 @@ def eval_case(item):
     return None
 
 
-def run(tier, seed):
+def run_single(tier, seed):
+    """Only the constructed single-edit cases (also used by C04)."""
+    return run(tier, seed, histories=False)
+
+
+def run(tier, seed, histories=True):
     t0 = time.time()
     items = list(cases(tier))
     with mp.get_context("fork").Pool(8) as pool:
@@ -91,6 +96,8 @@ def run(tier, seed):
     from bounded import livefresh
     from bounded.edits import merge
 
+    if not histories:
+        return _single(items, vio, t0)
     return merge(_single(items, vio, t0), livefresh.run("C11", tier, seed))
 
 
